@@ -68,7 +68,10 @@ PROPERTIES = {
     ),
     "C14": dict(
         title="rollout / repeat / stack_sub_trajectories / RepeatedStepper / ForcedStepper / build_ic_set",
-        select=lambda k, m: form(k) in ("rollout", "repeated", "forced", "repeat", "rollout-aux", "stack_sub_trajectories", "build_ic_set"),
+        select=lambda k, m: form(k) in (
+            "rollout", "repeated", "forced", "repeat", "rollout-aux", "stack_sub_trajectories", "build_ic_set", "build_ic_set/GRF",
+            "rollout-n", "repeated-n", "shared-repeated", "shared-forced",
+        ),  # fmt: skip
         quick=dict(seeds=24, groups=36),
         thorough=dict(seeds=400, groups=None),
     ),
@@ -128,6 +131,7 @@ def main():
         select=select, isolate_reference=args.tier == "thorough", replay_sample=6 if args.tier == "quick" else 48,
         replay_dir=os.path.join(VERIF, "replays"), label=prop, run_wall_cap=600.0, worker_timeout=2400.0,
         min_budget=40, plans_per_worker=3 if args.tier == "quick" else 6,
+        crash_points=tier_cfg.get("crash_points", 48 if args.tier == "quick" else None),
     )  # fmt: skip
     try:
         if args.replay:
@@ -151,8 +155,9 @@ def main():
             return 2
         if n_groups and len(ex.groups) > n_groups:
             # swarm over configurations too: this run's subset is drawn from VERIF_SEED
-            order = sorted(ex.groups, key=lambda g: hashlib.sha256(f"{args.seed}-{g}".encode()).hexdigest())
-            keep = set(order[:n_groups])
+            # (groups that are not stepper configurations -- trajectory utilities, IC generators -- are always kept)
+            order = sorted((g for g in ex.groups if g.startswith("stepper")), key=lambda g: hashlib.sha256(f"{args.seed}-{g}".encode()).hexdigest())
+            keep = set(order[:n_groups]) | {g for g in ex.groups if not g.startswith("stepper")}
             ex.ops = {k: m for k, m in ex.ops.items() if m["group"] in keep}
             ex.keys = list(ex.ops)
             ex.groups = {g: v for g, v in ex.groups.items() if g in keep}
@@ -213,6 +218,8 @@ def main():
                 "reach": sim["reach"],
                 "faults_injected": sim["faults_injected"],
                 "simulated_wall_clock_excursion_s": sim["simulated_wall_clock_excursion_s"],
+                "crash_point_enumeration": sim["crash_point_enumeration"],
+                "change_aware_focus": {"files_with_uncommitted_changes": ex.focus["files"], "lines": len(ex.focus["lines"])},
                 "determinism": {"reruns_elsewhere": sim["determinism_reruns"], "event_log_divergences": len(sim["determinism_divergences"])},
                 "bitwise_differences_within_rounding": sum(1 for r in good for m in r["mismatches"] if m["severity"] == "rounding"),
                 "operations_raising_in_isolation_not_judged": skipped[:20],
